@@ -412,7 +412,7 @@ def eval_schema3(item):
 
 def universe(tier):
     quick = tier == "quick"
-    for spelling in ("absolute", "relative", "dot-relative"):  # ENABLE_AFTER_FIX "double-slash"
+    for spelling in ("absolute", "relative", "dot-relative", "double-slash"):
         yield ("schema3", spelling)
     targets = ["dir", ".zip", ".tar.gz"] if quick else TARGETS
     for (uni, idxs) in projects(tier):
